@@ -1,6 +1,7 @@
 package http
 
 import (
+	"bytes"
 	"context"
 	"encoding/json"
 	"fmt"
@@ -76,6 +77,10 @@ func HttpRequest(client *http.Client, req *http.Request, response any) error {
 		return &oidcErr
 	}
 
+	if string(bytes.TrimSpace(body)) == "null" {
+		// callers decode into a pointer to a nil pointer and use the result without a nil check
+		return fmt.Errorf("failed to unmarshal response: unexpected null %s", body)
+	}
 	err = json.Unmarshal(body, response)
 	if err != nil {
 		return fmt.Errorf("failed to unmarshal response: %v %s", err, body)
